@@ -58,7 +58,10 @@ def gen_history(seed, i, maxlen):
     evs = [{"e": "run", "args": rng.choice(pool[:6])}]
     for _ in range(rng.randint(1, maxlen - 1)):
         r = rng.random()
-        if r < 0.35:
+        if r < 0.07:
+            # a run with the cache disabled (--info-export): rewrites the ninja file, must not leave an older cache behind
+            evs.append({"e": "run", "args": rng.choice(pool[:9]), "nocache": True})
+        elif r < 0.35:
             evs.append({"e": "run", "args": rng.choice(pool)})
         elif r < 0.55:
             evs.append({"e": "run", "args": rng.choice(pool[:9]), "stop": rng.choice(POINTS)})
@@ -208,7 +211,7 @@ class Hist:
             return "header-only"      # a complete file with no builds and a file cut after the header look the same
         return "complete" if h in self.complete else "short"
 
-    def run(self, args, stop=None, edit_during=None, generate_only=True, ninja_rc=0):
+    def run(self, args, stop=None, edit_during=None, generate_only=True, ninja_rc=0, nocache=False):
         env = {}
         self.fam = "local" if args.get("local") is not None else "global"
         if stop and not edit_during:
@@ -239,6 +242,8 @@ class Hist:
             projrun.read_dump(self.s.d)
         else:
             inv = {"args": args, "flags": {"generate_only": generate_only}, "ninja_rc": ninja_rc}
+            if nocache:
+                inv["flags"]["info_export"] = ".info-export.json"
             self.s_binary = self.binary()
             r = self.invoke(inv, env)
         r["hit"] = "laze: reading cache took" in r["stdout"]
@@ -298,7 +303,7 @@ def run_history(sc):
             else:
                 args = ev["args"]
                 failing = args.get("builders") == ["nosuch"] or args.get("apps") == ["nosuchapp"]
-                r = h.run(args, stop=ev.get("stop"), edit_during=ev.get("edit_during"))
+                r = h.run(args, stop=ev.get("stop"), edit_during=ev.get("edit_during"), nocache=bool(ev.get("nocache")))
                 if not ev.get("stop") and r["rc"] != 0 and not r["hit"]:
                     failing = True        # generation itself reports an error: an external event for the protocol model
                 if ev.get("edit_during"):
@@ -308,7 +313,8 @@ def run_history(sc):
                                                 "window_edit": ev["edit_during"], "fam": h.fam})
                 else:
                     out["model_events"].append({"e": "run", "key": key_of(args, h.uuid, conf), "files": h.files(),
-                                                "stop": ev.get("stop") or "never", "failing": failing, "fam": h.fam})
+                                                "stop": ev.get("stop") or "never", "failing": failing, "fam": h.fam,
+                                                "nocache": bool(ev.get("nocache")) and not failing})
                 rep = "hit" if r["hit"] else ("done" if r["rc"] == 0 else "stopped")
                 out["obs"].append({"fam": h.fam, "report": rep, "ninja": h.ninja_class(), "cache": "record" if os.path.exists(h.cache_path()) else "absent",
                                    "rc": r["rc"], "stderr": r["stderr"][-200:]})
@@ -456,7 +462,7 @@ def judge(chk, sc, res):
 
 
 def run(chk):
-    n, maxlen = (60, 5) if chk.tier == "quick" else (1500, 8)
+    n, maxlen = (120, 5) if chk.tier == "quick" else (1500, 8)
     chk.rule = ("histories over {run(args), run killed at one of 10 fault points, failing run (unknown builder/app), edit / touch of a loaded "
                 "lazefile, edit placed between parse and stat of a run, swap of the laze binary} of length <= 5 (quick) / 8 (thorough) on a "
                 "2-builder x 2-app project with sub-directories, followed by a final run R and the same run with an empty build directory; oracle: "
